@@ -170,7 +170,10 @@ void mmd_print_char_opendocument(DString * out, char c, bool line_breaks) {
 			break;
 
 		case '\t':
-			print_const("<text:tab/>");
+			if (line_breaks) {
+				// Only where elements are allowed (not in attribute values or metadata)
+				print_const("<text:tab/>");
+			}
 
 		default:
 			print_char(c);
